@@ -78,4 +78,21 @@ theorem std_in_grammar (f : Rfc2822.Fields) (h : StdFields f) : Rfc2822 (stdText
       · simp only [hn, decide_false, Bool.false_eq_true, if_false]; omega
   · simp [stdText, secOf]
 
+/-- validity of the fields implies the scanner's setter ranges -/
+theorem setterRanges_of_valid (f : Fields) (hv : Valid f) : SetterRanges f := by
+  obtain ⟨v1, v2, v3, _, v5, v6, v7, v8, _⟩ := hv
+  have hb := Chrono.Proofs.valid_bounds f.year f.month f.day v3
+  have hd1 : 1 ≤ f.day := by
+    unfold validYmd at v3
+    simp only [Bool.and_eq_true, decide_eq_true_eq] at v3
+    exact v3.1.2
+  have hMAX : Extracted.MAX_YEAR = 262142 := rfl
+  unfold OffValid at v8
+  exact ⟨hd1, hb.2, by omega, v5, v6, v7, by omega, by omega⟩
+
+
+theorem ws_sp : Ws [32] := Ws.cons [32] [] (by decide) Ws.nil
+theorem ws1_sp : Ws1 [32] := ⟨[32], [], by decide, Ws.nil, rfl⟩
+
+
 end Chrono.Proofs.Rfc2822
